@@ -177,17 +177,41 @@ func genConfig(t *rapid.T, cliOnly bool) config {
 	return c
 }
 
+// genWeights: nil (half of the time), positive real weights, bootstrap-like integer multiplicities
+// 0..3 (zeros included: a column drawn no time), or real weights with exact zeros; never all zero
+func genWeights(t *rapid.T, l int) []float64 {
+	kind := rapid.IntRange(0, 11).Draw(t, "weights")
+	if kind >= 6 {
+		return nil
+	}
+	var pool []float64
+	switch kind {
+	case 0, 1:
+		pool = []float64{1, 1, 2, 3, 0.5, 0.25, 1.5, 0.01, 7}
+	case 2, 3, 4:
+		pool = []float64{0, 1, 0, 2, 1, 3}
+	default:
+		pool = []float64{0, 0.5, 1.5, 0, 1, 0.25, 2}
+	}
+	st := &stream{rapid.Uint64().Draw(t, "wseed")}
+	w := make([]float64, l)
+	sum := 0.0
+	for j := range w {
+		w[j] = pool[st.intn(len(pool))]
+		sum += w[j]
+	}
+	if sum == 0 {
+		w[st.intn(l)] = 1
+	}
+	return w
+}
+
 func genDist(t *rapid.T) dCase {
 	var c dCase
 	c.Ali = genAli(t, 2, 6)
 	c.Cfg = genConfig(t, false)
 	l := c.Ali.Length()
-	if rapid.IntRange(0, 2).Draw(t, "weighted") == 0 {
-		c.Weights = make([]float64, l)
-		for j := range c.Weights {
-			c.Weights[j] = rapid.SampledFrom([]float64{1, 1, 2, 3, 0.5, 0.25, 1.5, 0.01, 7}).Draw(t, "w")
-		}
-	}
+	c.Weights = genWeights(t, l)
 	c.RowPerm = gen.Perm(t, len(c.Ali.Rows), "rowperm")
 	c.ColPerm = gen.Perm(t, l, "colperm")
 	return c
@@ -214,10 +238,15 @@ func domainOK(a gen.Ali, cfg config, weights []float64) bool {
 		if len(weights) != a.Length() {
 			return false
 		}
+		sum := 0.0
 		for _, w := range weights {
-			if !(w > 0) {
+			if !(w >= 0) || math.IsInf(w, 0) {
 				return false
 			}
+			sum += w
+		}
+		if !(sum > 0) {
+			return false
 		}
 	}
 	return true
@@ -725,9 +754,62 @@ func checkDist(c dCase) (o pbt.Outcome, err error) {
 			}
 		}
 	}
+	// integer weights k are the same as each column written k times (0: the column removed)
+	if ea, ok := expand(c.Ali, c.Weights); ok {
+		de, e := mlDist(ea, c.Cfg, nil)
+		if e != nil {
+			return o, fmt.Errorf("no distance matrix for the alignment with every column repeated as many times as its weight (%s): %v", gen.Show(ea.Rows), e)
+		}
+		for i := 0; i < n; i++ {
+			for j := 0; j < n; j++ {
+				if v.flat[i][j] != 0 {
+					continue
+				}
+				if math.Abs(de[i][j]-d[i][j]) > relTol {
+					return o, fmt.Errorf("with the integer weights %v d[%d][%d] = %.10g, with every column repeated as many times as its weight instead (%s) it is %.10g", c.Weights, i, j, d[i][j], gen.Show(ea.Rows), de[i][j])
+				}
+			}
+		}
+		o.Class("weights: integer multiplicities, compared with repeated columns")
+	}
+	zeros := false
+	for _, w := range c.Weights {
+		zeros = zeros || w == 0
+	}
+	if zeros {
+		o.Class("weights: with exact zeros")
+	}
 	o.NonTrivial = v.nonTrivial
 	classes(&o, c.Cfg, c.Weights != nil)
 	return o, nil
+}
+
+// expand: the alignment with column j written w[j] times, when every weight is a small integer
+func expand(a gen.Ali, w []float64) (gen.Ali, bool) {
+	if w == nil {
+		return a, false
+	}
+	total := 0
+	for _, x := range w {
+		if x != math.Trunc(x) || x < 0 || x > 10 {
+			return a, false
+		}
+		total += int(x)
+	}
+	if total == 0 {
+		return a, false
+	}
+	out := gen.Ali{Alphabet: a.Alphabet}
+	for _, r := range a.Rows {
+		b := make([]byte, 0, total)
+		for j, x := range w {
+			for k := 0; k < int(x); k++ {
+				b = append(b, r.Seq[j])
+			}
+		}
+		out.Rows = append(out.Rows, gen.Row{Name: r.Name, Seq: string(b)})
+	}
+	return out, true
 }
 
 func classes(o *pbt.Outcome, cfg config, weighted bool) {
@@ -804,14 +886,10 @@ func genReuse(t *rapid.T) reuseCase {
 		c.Cfg.RmGaps = true
 	}
 	c.Weights = make([][]float64, len(c.Alis))
-	if rapid.IntRange(0, 3).Draw(t, "weighted") == 0 {
+	if rapid.IntRange(0, 2).Draw(t, "weighted") == 0 {
+		// as distboot -c: the same alignment again with other weights is the typical history
 		for i, a := range c.Alis {
-			if rapid.Bool().Draw(t, "wi") {
-				c.Weights[i] = make([]float64, a.Length())
-				for j := range c.Weights[i] {
-					c.Weights[i][j] = rapid.SampledFrom([]float64{1, 2, 0.5, 3, 0.25, 1.5}).Draw(t, "w")
-				}
-			}
+			c.Weights[i] = genWeights(t, a.Length())
 		}
 	}
 	return c
